@@ -140,7 +140,19 @@ fn render_n(entries: &[NE], ns: &Ns) -> Rendered {
             NE::Account { name, aliases } => {
                 writeln!(text, "account {}", ns.acc[*name]).unwrap();
                 line += 1;
-                for a in aliases {
+                // note / comment sub-directives before and between the alias lines
+                for (j, a) in aliases.iter().enumerate() {
+                    match (k + j) % 3 {
+                        1 => {
+                            writeln!(text, "    note about {}", k).unwrap();
+                            line += 1;
+                        }
+                        2 => {
+                            writeln!(text, "    ; remark {}", k).unwrap();
+                            line += 1;
+                        }
+                        _ => {}
+                    }
                     writeln!(text, "    alias {}", ns.acc[*a]).unwrap();
                     line += 1;
                 }
@@ -154,6 +166,11 @@ fn render_n(entries: &[NE], ns: &Ns) -> Rendered {
                     let f = format!("    format {} {}", num_text(1000 * 10i64.pow(*dp), *dp, true), ns.com[*name]);
                     let at = if lines.len() >= 2 { 1 } else { lines.len() };
                     lines.insert(at, f);
+                }
+                match k % 3 {
+                    1 => lines.insert(0, format!("    note about {}", k)),
+                    2 => lines.insert(0, format!("    ; remark {}", k)),
+                    _ => {}
                 }
                 for l in lines {
                     writeln!(text, "{}", l).unwrap();
